@@ -32,25 +32,29 @@ type Rec struct {
 }
 
 type PipeCase struct {
-	Algo      string    `json:"algo"` // compare, compareW, fbp, tbe, consensus
-	Ref       string    `json:"ref,omitempty"`
-	Recs      []Rec     `json:"recs"`
-	Feed      string    `json:"feed"`            // "reader": real ReadMultiTrees over a SimReader; "chan": harness producer
-	Nexus     bool      `json:"nexus,omitempty"` // reader feed: the trees come as a Nexus document
-	Cpus      int       `json:"cpus"`
-	Tips      bool      `json:"tips,omitempty"`
-	Identical bool      `json:"identical,omitempty"`
-	AvgTaxa   bool      `json:"avgtaxa,omitempty"`
-	PerBranch bool      `json:"perbranch,omitempty"`
-	RawTree   bool      `json:"rawtree,omitempty"`
-	Cutoff    float64   `json:"cutoff,omitempty"`
-	BadCutoff bool      `json:"badcutoff,omitempty"`
-	NaNCutoff bool      `json:"nancutoff,omitempty"`
-	SwapIdx   int       `json:"swapidx,omitempty"`
-	Recs2     []Rec     `json:"recs2,omitempty"` // the same collection in another order and presentation (metamorphic second run)
-	BufSz     int       `json:"bufsz"`
-	Chunk     int       `json:"chunk"`
-	Sched     SchedCase `json:"sched"`
+	Algo      string  `json:"algo"` // compare, compareW, fbp, tbe, consensus
+	Ref       string  `json:"ref,omitempty"`
+	Recs      []Rec   `json:"recs"`
+	Feed      string  `json:"feed"`            // "reader": real ReadMultiTrees over a SimReader; "chan": harness producer
+	Nexus     bool    `json:"nexus,omitempty"` // reader feed: the trees come as a Nexus document
+	Cpus      int     `json:"cpus"`
+	Tips      bool    `json:"tips,omitempty"`
+	Identical bool    `json:"identical,omitempty"`
+	AvgTaxa   bool    `json:"avgtaxa,omitempty"`
+	PerBranch bool    `json:"perbranch,omitempty"`
+	RawTree   bool    `json:"rawtree,omitempty"`
+	Cutoff    float64 `json:"cutoff,omitempty"`
+	BadCutoff bool    `json:"badcutoff,omitempty"`
+	NaNCutoff bool    `json:"nancutoff,omitempty"`
+	SwapIdx   int     `json:"swapidx,omitempty"`
+	// CloneSwaps: instead of Recs, the compared trees are clones of the indexed reference with two tip names exchanged
+	CloneSwaps [][2]int `json:"cloneswaps,omitempty"`
+	// ShareObjects (producer feed): records with the same text are the same *tree.Tree object
+	ShareObjects bool      `json:"shareobjects,omitempty"`
+	Recs2        []Rec     `json:"recs2,omitempty"` // the same collection in another order and presentation (metamorphic second run)
+	BufSz        int       `json:"bufsz"`
+	Chunk        int       `json:"chunk"`
+	Sched        SchedCase `json:"sched"`
 }
 
 type CmpRec struct {
@@ -65,16 +69,17 @@ func (r CmpRec) String() string {
 }
 
 type PipeResult struct {
-	Sched    sched.Result
-	Recs     map[int]CmpRec
-	Dup      []int // tree ids reported more than once
-	RefOut   string
-	RawOut   string
-	LogOut   string
-	Progress int
-	TipSup   int // tip branches carrying a support after FBP / TBE
-	Err      error
-	Returned bool
+	Sched      sched.Result
+	Recs       map[int]CmpRec
+	Dup        []int // tree ids reported more than once
+	RefOut     string
+	RawOut     string
+	LogOut     string
+	Progress   int
+	TipSup     int // tip branches carrying a support after FBP / TBE
+	CloneTexts []string
+	Err        error
+	Returned   bool
 }
 
 func tipSupports(t *tree.Tree) int {
@@ -116,6 +121,38 @@ func (pc *PipeCase) hasFault() (int, string) {
 var errInjected = errors.New("injected error record")
 
 // feed returns the input channel of the SUT. Must be called inside the bubble.
+// cloneFeed: the compared trees are clones of the already indexed reference, each with the names of two tips exchanged
+// (a history: index, clone, edit the clone, compare). The text of each clone is noted for the model.
+func (pc *PipeCase) cloneFeed(ref *tree.Tree, pr *PipeResult) <-chan tree.Trees {
+	if err := ref.ReinitIndexes(); err != nil {
+		panic("harness: " + err.Error())
+	}
+	var clones []*tree.Tree
+	for _, sw := range pc.CloneSwaps {
+		c := ref.Clone()
+		tips := c.Tips()
+		a, b := tips[sw[0]%len(tips)], tips[sw[1]%len(tips)]
+		na, nb := a.Name(), b.Name()
+		a.SetName(nb)
+		b.SetName(na)
+		clones = append(clones, c)
+		pr.CloneTexts = append(pr.CloneTexts, c.Newick())
+	}
+	ch := make(chan tree.Trees)
+	id := verifhook.Spawn("harness.producer")
+	go func() {
+		verifhook.GoStart(id)
+		defer verifhook.GoEnd()
+		for i, c := range clones {
+			verifhook.Yield("harness.producer", "send")
+			ch <- tree.Trees{Tree: c, Id: i}
+		}
+		verifhook.Yield("harness.producer", "close")
+		close(ch)
+	}()
+	return ch
+}
+
 func (pc *PipeCase) feed() <-chan tree.Trees {
 	if pc.Feed == "reader" {
 		text := pc.streamText()
@@ -137,13 +174,20 @@ func (pc *PipeCase) feed() <-chan tree.Trees {
 	go func() {
 		verifhook.GoStart(id)
 		defer verifhook.GoEnd()
+		shared := map[string]*tree.Tree{}
 		for i, r := range pc.Recs {
 			var rec tree.Trees
 			if r.Fault == "errrec" {
 				rec = tree.Trees{Tree: nil, Id: i, Err: errInjected}
+			} else if t, ok := shared[r.Text]; ok && pc.ShareObjects {
+				// a collection drawn with replacement: the same tree object more than once
+				rec = tree.Trees{Tree: t, Id: i}
 			} else {
 				t, err := newick.NewParser(strings.NewReader(r.Text)).Parse()
 				rec = tree.Trees{Tree: t, Id: i, Err: err}
+				if err == nil {
+					shared[r.Text] = t
+				}
 			}
 			verifhook.Yield("harness.producer", "send")
 			ch <- rec
@@ -165,10 +209,16 @@ func runPipeT(t *testing.T, pc *PipeCase, cpus int, sc SchedCase, maxSteps, tota
 	pr := &PipeResult{Recs: map[int]CmpRec{}}
 	cfg := sc.ConfigT(maxSteps, total)
 	pr.Sched = sched.Run(t, cfg, func() {
-		in := pc.feed()
+		ref := mustParse(pc.Ref)
+		var in <-chan tree.Trees
+		if len(pc.CloneSwaps) > 0 {
+			in = pc.cloneFeed(ref, pr)
+		} else {
+			in = pc.feed()
+		}
 		switch pc.Algo {
 		case "compare":
-			st, err := tree.Compare(mustParse(pc.Ref), in, pc.Tips, pc.Identical, cpus)
+			st, err := tree.Compare(ref, in, pc.Tips, pc.Identical, cpus)
 			if err != nil {
 				pr.Err = err
 				break
@@ -185,7 +235,7 @@ func runPipeT(t *testing.T, pc *PipeCase, cpus int, sc SchedCase, maxSteps, tota
 				pr.Recs[s.Id] = r
 			}
 		case "compareW":
-			st, err := tree.CompareWeighted(mustParse(pc.Ref), in, pc.Tips, pc.Identical, cpus)
+			st, err := tree.CompareWeighted(ref, in, pc.Tips, pc.Identical, cpus)
 			if err != nil {
 				pr.Err = err
 				break
@@ -361,6 +411,8 @@ func guard(o *Outcome, what string, f func()) (ok bool) {
 				o.Fail("hang:"+what, "%s: reader keeps reading after end of input (endless loop)", what)
 			case tickSentinel:
 				o.Fail("hang:"+what, "%s: logical loop budget exceeded (endless loop)", what)
+			case lockSentinel:
+				o.Fail("deadlock:lock-never-released", "%s: a lock is taken at %s while it is still held, and no other goroutine exists that could release it (left locked by an earlier call in this process)", what, v.site)
 			case sched.ExitSentinel:
 				o.Fail("process-exit:"+what, "%s: the library called os.Exit(%d)", what, v.Code)
 			case needsScheduler:
